@@ -394,8 +394,10 @@ func (pj *Projector) XKeys(n *Node) []string {
 type Concretizer struct {
 	Names *NameTable
 	Files *FileTable
-	// RefStyle: 0 = percent-escape the fragment (url.PathEscape), 1 = raw fragment except '#','%'
+	// RefStyle: 0 = percent-escape the fragment (url.PathEscape), 1 = raw fragment except '#','%',
+	// 2 = as 0, and every other cross-document $ref is spelled with a leading "./" (equivalent spellings of one target)
 	RefStyle int
+	nCross   int
 }
 
 func ptrEscape(tok string) string {
@@ -420,6 +422,12 @@ func (c *Concretizer) RenderRef(ref []string, holderDoc string) string {
 			if err != nil {
 				rel = tp
 			}
+			if c.RefStyle == 2 {
+				c.nCross++
+				if c.nCross%2 == 0 && !strings.HasPrefix(rel, ".") {
+					rel = "./" + rel
+				}
+			}
 			sb.WriteString(filepath.ToSlash(rel))
 		}
 	}
@@ -428,7 +436,7 @@ func (c *Concretizer) RenderRef(ref []string, holderDoc string) string {
 		for _, t := range ref[1:] {
 			sb.WriteString("/")
 			e := ptrEscape(c.Names.Conc(t))
-			if c.RefStyle == 0 {
+			if c.RefStyle == 0 || c.RefStyle == 2 {
 				e = url.PathEscape(e)
 			} else {
 				e = strings.ReplaceAll(strings.ReplaceAll(e, "%", "%25"), "#", "%23")
@@ -465,9 +473,11 @@ func (c *Concretizer) Concretize(n *Node, holderDoc string) any {
 		return arr
 	}
 	out := map[string]any{}
+	if r, ok := n.At["$ref"].([]string); ok {
+		out["$ref"] = c.RenderRef(r, holderDoc)
+	}
 	for k, v := range n.At {
 		if k == "$ref" {
-			out["$ref"] = c.RenderRef(v.([]string), holderDoc)
 			continue
 		}
 		switch x := v.(type) {
@@ -481,8 +491,13 @@ func (c *Concretizer) Concretize(n *Node, holderDoc string) any {
 			out[c.Names.Conc(k)] = arr
 		}
 	}
-	for k, ch := range n.Ch {
-		out[c.Names.Conc(k)] = c.Concretize(ch, holderDoc)
+	kids := make([]string, 0, len(n.Ch))
+	for k := range n.Ch {
+		kids = append(kids, k)
+	}
+	sort.Strings(kids)
+	for _, k := range kids {
+		out[c.Names.Conc(k)] = c.Concretize(n.Ch[k], holderDoc)
 	}
 	return out
 }
